@@ -1138,6 +1138,12 @@ def fixed_specs() -> list:
         ['L', [i(1)]], ['L', []], ['D', [[i(1), i(2)]]], ['Tp', [i(1), s('a')]], ['FS', [i(1)]], ['list', [['list', [i(1)]], ['list', [i(1)]]]],
         ['dict', [[['tuple', [i(1), i(2)]], i(3)]]], ['list', [['dict', [[i(1), ['list', [i(2)]]]]], ['dict', [[s('a'), ['tuple', [i(3)]]]]]]],
     ] + [['leaf', n] for n in LEAVES] + [['list', [['leaf', n]]] for n in ('enum', 'len', 'f_ann2', 'int_cls', 'gen', 'S', 'P', 'str_upper')]
+    # collections that are EQUAL (and hash-equal) although their item TYPES differ, one after the other and side by side:
+    # the hint of one is not the hint of the other
+    f = lambda x: ['float', x]  # noqa: E731
+    out += [['tuple', [i(1), i(2)]], ['tuple', [f(1.0), f(2.0)]], ['frozenset', [i(3)]], ['frozenset', [f(3.0)]],
+            ['tuple', [['tuple', [i(0), s('a')]], ['tuple', [f(0.0), s('a')]]]], ['list', [['frozenset', [i(3)]], ['frozenset', [f(3.0)]]]],
+            ['list', [['tuple', [i(1)]], ['tuple', [f(1.0)]]]], ['tuple', [f(1.0), f(2.0)]], ['tuple', [i(1), i(2)]]]
     return out
 
 
